@@ -18,6 +18,46 @@ type genFacts struct {
 	dryParam  *ssa.Parameter // param whose false edge dominates the write
 	prtParam  *ssa.Parameter // param guarding the stdout print of the formatted code
 	callers   []Site
+	prints    []printSite
+}
+
+// printSite is an instruction of the writing function that prints string(val) on stdout as an operand: either a
+// direct fmt.Print/Println or a call of a local closure whose body does that with its parameter.
+type printSite struct {
+	instr    ssa.Instruction
+	val      *core.Term     // the printed bytes
+	inner    *ssa.Parameter // closure form: the bool parameter of the writing function that guards the print inside the closure (nil = unguarded)
+	viaClose bool
+}
+
+// closurePrint: if fn (an anonymous function) prints string(<its parameter k>) with fmt.Print/Println, returns k and
+// the free variable (if any) whose truth guards that print.
+func (c *Ctx) closurePrint(fn *ssa.Function) (k int, guard *ssa.FreeVar, ok bool) {
+	for _, s := range c.Calls(func(n string) bool { return n == "fmt.Println" || n == "fmt.Print" }) {
+		if s.Fn != fn {
+			continue
+		}
+		a := c.varargAt(s.Args()[0], 0)
+		if a == nil || a.Kind != "convert" || a.Name != "string" || a.Args[0].Kind != "param" {
+			continue
+		}
+		for i, p := range fn.Params {
+			if p.Name() == a.Args[0].Name {
+				k = i
+				ok = true
+			}
+		}
+		d := c.ReachOf(s.Instr)
+		for _, fv := range fn.FreeVars {
+			if d.Implies(c.M(true, termEq("fv:"+fv.Name()))) && len(d) > 0 {
+				guard = fv
+			}
+		}
+		if ok {
+			return
+		}
+	}
+	return 0, nil, false
 }
 
 func (c *Ctx) generateFacts(rule string) *genFacts {
@@ -41,13 +81,75 @@ func (c *Ctx) generateFacts(rule string) *genFacts {
 			g.dryParam = p
 		}
 	}
-	// print param: guards a fmt.Println of string(<data>)
-	for _, s := range c.CallsIn(g.fn, "fmt.Println", false) {
-		a := c.varargAt(s.Args()[0], 0)
-		if a == nil || a.Kind != "convert" || a.Args[0].String() != g.data.String() {
+	// print sites
+	for _, s := range c.Calls(func(n string) bool { return n == "fmt.Println" || n == "fmt.Print" }) {
+		if s.Fn != g.fn {
 			continue
 		}
-		dd := c.ReachOf(s.Instr)
+		a := c.varargAt(s.Args()[0], 0)
+		if a == nil || a.Kind != "convert" || a.Name != "string" {
+			continue
+		}
+		g.prints = append(g.prints, printSite{instr: s.Instr, val: a.Args[0]})
+	}
+	for _, b := range g.fn.Blocks {
+		for _, in := range b.Instrs {
+			ci, ok := in.(ssa.CallInstruction)
+			if !ok || ci.Common().IsInvoke() {
+				continue
+			}
+			mc, ok := ci.Common().Value.(*ssa.MakeClosure)
+			var af *ssa.Function
+			if ok {
+				af, _ = mc.Fn.(*ssa.Function)
+			} else if f, isF := ci.Common().Value.(*ssa.Function); isF && f.Parent() == g.fn {
+				af = f
+			}
+			if af == nil {
+				continue
+			}
+			k, guard, isPrint := c.closurePrint(af)
+			if !isPrint || k >= len(ci.Common().Args) {
+				continue
+			}
+			ps := printSite{instr: in, val: c.O.Of(ci.Common().Args[k]), viaClose: true}
+			if guard != nil && mc != nil {
+				for i, fv := range af.FreeVars {
+					if fv == guard && i < len(mc.Bindings) {
+						// binding is the parameter itself or the cell holding it
+						switch bv := mc.Bindings[i].(type) {
+						case *ssa.Parameter:
+							ps.inner = bv
+						case *ssa.Alloc:
+							if bv.Referrers() != nil {
+								for _, rf := range *bv.Referrers() {
+									if st, ok := rf.(*ssa.Store); ok && st.Addr == bv {
+										if p, ok := st.Val.(*ssa.Parameter); ok {
+											ps.inner = p
+										}
+									}
+								}
+							}
+						}
+					}
+				}
+				if ps.inner == nil {
+					continue // guarded by something we cannot name: not a recognised print site
+				}
+			}
+			g.prints = append(g.prints, ps)
+		}
+	}
+	// print param: guards a print of string(<data>)
+	for _, ps := range g.prints {
+		if ps.val.String() != g.data.String() {
+			continue
+		}
+		if ps.inner != nil {
+			g.prtParam = ps.inner
+			continue
+		}
+		dd := c.ReachOf(ps.instr)
 		for _, p := range g.fn.Params {
 			if b, ok := p.Type().Underlying().(*types.Basic); !ok || b.Kind() != types.Bool || p == g.dryParam {
 				continue
@@ -163,9 +265,15 @@ func C15(c *Ctx) {
 		if !rc.CanReach(g.write.Instr.Block(), ret.Block()) {
 			continue
 		}
-		dd := c.ReachOf(ret)
-		if !dd.Implies(wOK) {
-			continue // failure side of the write
+		// the ways of reaching this return on which the write succeeded
+		var dd core.DNF
+		for _, cj := range c.ReachOf(ret) {
+			if (core.DNF{cj}).Implies(wOK) {
+				dd = append(dd, cj)
+			}
+		}
+		if len(dd) == 0 {
+			continue // failure side of the write, or a path that did not write
 		}
 		n++
 		last := c.O.Of(ret.Results[len(ret.Results)-1])
